@@ -660,5 +660,9 @@ PROPS["C15"]["rules"] = PROPS["C15"]["rules"] + [rules_attr.rule_xdr_encode_sour
 PROPS["C03"]["rules"] = PROPS["C03"]["rules"] + [rules_sd.rule_empty_request_tested]
 PROPS["C03"]["explanation"] += " (EMPTYREQ) NCgenio turns a request with a zero count away before its transfer-first odometer loop."
 
+PROPS["C04"]["rules"] = PROPS["C04"]["rules"] + [rules_cache.rule_cache_open_flags, rules_coders.rule_quotient_remainder_pair]
+PROPS["C04"]["explanation"] += " (MCFLAG) every chunk cache is opened with flags 0, so pages come in through the filter that supplies the fill value. (QUOTREM) byte and bit index of a bit position are quotient and remainder of the same quantity."
+PROPS["C05"]["rules"] = PROPS["C05"]["rules"] + [rules_coders.rule_quotient_remainder_pair]
+
 NOT_APPLICABLE = {}
 
